@@ -9,7 +9,8 @@ META = dict(
               "connection and whether a persistent request head has reached the server",
     text="Servers: Valet with a WSGI app {fixed: immediate Content-Length response; stream: generator of 4 pieces, one written per "
          "service call; echo: POST body echoed} and Porter (its built-in echo responder), each over plain and TLS doubles, idle "
-         "timeout T = 10 s. Two connections are accepted at time 0: N never sends anything; K sends a request in fragments "
+         "timeout T = 10 s. Three connections are accepted in the first service call, in the order N, K, M: N and M never send anything (an idle "
+         "connection accepted before and one accepted after the active one); K sends a request in fragments "
          "(request line split, head completed only by a later fragment, body split) - request variants HTTP/1.1 keep-alive, "
          "HTTP/1.1 'Connection: close', HTTP/1.0, HTTP/1.0 'Connection: keep-alive'; persistent variants send a second request "
          "afterwards; variant 'ka11+close' sends a keep-alive request and then a 'Connection: close' request whose response is "
@@ -155,12 +156,12 @@ def execute(ch, server, scheme, variant, kind, slow, H, part, states):
     srv = build(server, scheme, fn, ck)
     frs, headlen, endlen = fragments(variant, kind)
     conns = []
-    for name in ("N", "K"):
+    for name in ("N", "K", "M"):       # accept order: an idle connection before and one after the active one
         s = fn.socket(name=name)
         if s.connect_ex(("127.0.0.1", PORT)) != 0:
             raise core.BrokenCheck("fake connect failed")
         conns.append(Conn(name, s))
-    neighbour, k = conns
+    neighbour, k, latest = conns
     if slow:                 # K reads slowly: the server's sends to K are accepted in part only
         k.sock.peer.menu = net.Menu(send_partial=True)
         policy.slow.add(k.sock.peer.ident)
@@ -224,7 +225,7 @@ def execute(ch, server, scheme, variant, kind, slow, H, part, states):
                 c.ended = True            # head of the 'Connection: close' request received: persistence is over,
                 c.persisted_at = None     # from the next pass on the plain idle rule applies again
         ix = srv.servant.ixes.get(k.ca)
-        st = (server, scheme, variant, kind, slow, len(sched), k.removed, neighbour.removed, k.persisted_at is not None,
+        st = (server, scheme, variant, kind, slow, len(sched), k.removed, neighbour.removed, latest.removed, k.persisted_at is not None,
               None if ix is None else (round(ix.timer.remaining, 3), ix.timeout, len(ix.txes), len(ix.rxbs)))
         states.add(hash(st))
         return not viol
@@ -293,7 +294,7 @@ def work(cfg):
                     dict(server=server, scheme=scheme, timeout=T, variant=variant, app=kind, slow_reader=slow,
                          fragments=fragments(variant, kind)[0], schedule=sched, choices=ch.choices, what=what,
                          how="%s(ha=('',8080), timeout=10.0, store=clock[, scheme='https', context=...]) over mc.net doubles; "
-                             "connect two raw client sockets N and K; per schedule item: 'send' = K sends its next fragment, "
+                             "connect three raw client sockets N, K, M (in that order); per schedule item: 'send' = K sends its next fragment, "
                              "'+xT' = clock.advance(x*10), then server.serviceAll()" % server)))
         return None
 
